@@ -523,7 +523,8 @@ def run_impl(ctx, binp, text, timeout=3000):
 
 # ---------------------------------------------------------------- the Coq side
 
-COQ_HEADER = """From Aranya Require Import base.Tactics base.Harness model.Dag model.Braid.
+COQ_HEADER = """(* the model is evaluated through braid_fast, proved equal to braid_L1 (braid_fast_eq, props/C03.v) *)
+From Aranya Require Import base.Tactics base.Harness model.Dag model.Braid.
 Open Scope N_scope.
 Definition mk (i pr pn : N) (par : prior) (b : N) : cmd :=
   {| cid := i; cprio := match pr with 0 => PMerge | 1 => PBasic pn | 2 => PFinalize | _ => PInit end; cpar := par; cbody := b |}.
@@ -544,7 +545,7 @@ Definition bres_eqb (a b : bres) : bool :=
 (* expected: (verdict 0 = ok / 1 = ParallelFinalize, optional base, order) *)
 Definition q_ok (g : graph) (q : list N * (N * option N * list N)) : bool :=
   let '(hs, (v, ob, ord)) := q in
-  match braid_L1 g hs with
+  match braid_fast g hs with
   | BOk b o => N.eqb v 0 && lN_eqb o ord && match ob with Some b' => N.eqb b b' | None => true end
   | BParFin => N.eqb v 1
   | BBug => false
@@ -552,7 +553,7 @@ Definition q_ok (g : graph) (q : list N * (N * option N * list N)) : bool :=
 Definition st_ok (g : graph) (e : option (list N * option (list N))) : bool :=
   match e with
   | None => true
-  | Some (hs, exp) => option_eqb lN_eqb (braid_state (list N) sev [] g hs) exp
+  | Some (hs, exp) => option_eqb lN_eqb (braid_state_with (list N) sev [] braid_fast g hs) exp
   end.
 Definition chk (c : graph * list (list N * (N * option N * list N)) * option (list N * option (list N))) : bool :=
   let '(g, qs, e) := c in wf_graphb g && forallb (q_ok g) qs && st_ok g e.
